@@ -17,7 +17,8 @@ CLAIMED = {
              "/repo on every run by executing the same generated histories on the real signer+ruler+rules(badger) stack and on "
              "the model and diffing verdicts and exports; released signatures are judged by the Lean Slashable predicate. "
              "C01_kernel_is_source: the model's check function equals, for all inputs, the Lean function factx translates on every "
-             "run from the current Go source of runSignBeaconAttestationChecks.",
+             "run from the current Go source of runSignBeaconAttestationChecks."
+             " Histories also hold import commands, account creation, lock/unlock operations (theorems stated for all histories without raw store-level imports, generalised in C01_with_imports), stores carried over in the legacy record format, a second service opened on a live store (must be refused), and rules-level batches of 10^5 synthetic validator keys.",
         note="Trusted: Lean kernel, propext/Classical.choice/Quot.sound; the correspondence check (harness, generators, driver); "
              "badger atomicity of Update/WriteBatch; BLS/wallet libraries. Modelled not verified: Go runtime, badger, wallets.",
         ref="DESIGN.md §6 C01"),
@@ -26,7 +27,8 @@ CLAIMED = {
         text="Theorems C02_increasing / C02 (Dirk/Props/C02.lean): for every configuration, store, history and key the slots of "
              "released proposal signatures are strictly increasing, so no two proposals share a slot. Kernel-checked for all "
              "inputs; model tied to /repo by the hist-engine correspondence and judged on the implementation's own output. "
-             "C02_kernel_is_source: onPropose equals the function translated on every run from the Go source of OnSignBeaconProposal, applied to the model store.",
+             "C02_kernel_is_source: onPropose equals the function translated on every run from the Go source of OnSignBeaconProposal, applied to the model store."
+             " Same enlarged histories as C01; legacy gob records holding slot 0; facts_store_options (NewStore sets no option that switches off the directory lock).",
         note="Trusted: Lean kernel and the three standard axioms; correspondence check; badger Update atomicity.",
         ref="DESIGN.md §6 C02"),
     "C05": dict(
@@ -48,7 +50,8 @@ CLAIMED = {
              "signature; C06_batch_*: a failing read or write anywhere fails the whole batch; C06_shape_*: one position per request. "
              "Tied to /repo by enumerating every single fault at every hook site for every request kind and batch position, "
              "undecodable records on disk, and seeded multi-fault histories; positions judged by the Lean biconditional."
-             " Also faults raised by badger itself: its write-refusal state (ErrBlockedWrites, reads still served) for the duration of a request, and a real shutdown beginning while a request stands at its write. Fact obligations facts_rules_results / facts_result_switches_total on the regenerated enumerators and switches.",
+             " Also faults raised by badger itself: its write-refusal state (ErrBlockedWrites, reads still served) for the duration of a request, and a real shutdown beginning while a request stands at its write. Fact obligations facts_rules_results / facts_result_switches_total on the regenerated enumerators and switches."
+             " Fault u: the accounts of a request cannot say whether they are unlocked. The permission judge (every signature must be granted by the specification) runs here too.",
         note="Trusted: Lean kernel + 3 axioms; fault injection points are the verif hooks (Store.Fetch/Store/BatchStore entry, after-store, signRoot); handler-level mapping is covered by C20's wire engine.",
         ref="DESIGN.md §6 C06"),
     "C07": dict(
@@ -61,7 +64,8 @@ CLAIMED = {
              "C07_refused_no_effect_*: a refused signing request returns no signature and leaves store and logs untouched; "
              "C07_resolved_account: the decision is taken on the canonical name of the resolved account. The whole-name, "
              "case-insensitive matching of patterns (regexify + Go regexp) is modelled (RE2 fragment, derivative matcher) and tied "
-             "by ~15k generated (configuration, probe) decisions per quick run, each judged by the Lean specification firstBearing.",
+             "by ~15k generated (configuration, probe) decisions per quick run, each judged by the Lean specification firstBearing."
+             " Also: account-manager Lock/Unlock requests; a listing stage; and the path from the configuration FILE to the checker (the built binary's --show-permissions must print every operation list in the order written).",
         note="One hypothesis about the string-level regex parser (regexify's output parses to the anchored shape around the parse of the pattern, ShapeOK) is not proved; the driver evaluates it for every pattern in use. Go regexp outside the modelled fragment and Unicode folding are not covered. main.go's map-ordered entry list is out of scope (the ordered list given to the checker is what is modelled).",
         ref="DESIGN.md §6 C07"),
     "C08": dict(
@@ -72,7 +76,8 @@ CLAIMED = {
              "determine well-formed data). Tie: every signature the implementation returns (batches of 1..65, thorough 300, "
              "GOMAXPROCS 1,2,3,16) is verified by the real BLS library under the addressed account's key over the root computed "
              "by the Lean model's own SHA-256/merkleisation; neighbouring positions' roots must be rejected."
-             " Every released signature is judged against the signing root of ITS OWN entry's data (Lean aroot/proot/sroot) even where the model signs nothing; batches with an entry failing before the rules at front/middle/end.",
+             " Every released signature is judged against the signing root of ITS OWN entry's data (Lean aroot/proot/sroot) even where the model signs nothing; batches with an entry failing before the rules at front/middle/end."
+             " Runs with trace-level logging; distributed accounts addressed by composite and by share keys; all-by-name / all-by-key batches.",
         note="Assumed: SHA-256 collision resistance, herumi BLS. The model's SHA-256/SSZ are re-implementations tied by the verification itself.",
         ref="DESIGN.md §6 C08"),
     "C09": dict(
@@ -81,7 +86,8 @@ CLAIMED = {
              "recorded), C09_batch_eq_seq (for distinct keys with decodable records the batch path returns, position by position, "
              "the verdicts of its entries one at a time), C09_scatter_partition (Scatter's extents tile [0,n) for every n,p>0). "
              "Tie: util.Scatter vs the Lean extents on the full grid n<=600 x 9 GOMAXPROCS values; clean histories judged for "
-             "liveness by the Lean predicate; each history's last batch re-run entry by entry on a twin instance.",
+             "liveness by the Lean predicate; each history's last batch re-run entry by entry on a twin instance."
+             " Wide batches over validators with different histories.",
         note="Liveness at history level assumes fault-free, import-free histories (stated in the property). Trusted: Lean kernel + 3 axioms; correspondence check.",
         ref="DESIGN.md §6 C09"),
     "C10": dict(
@@ -91,7 +97,8 @@ CLAIMED = {
              "for all prior stores in int64 range, files and flags. Tie: the dirk binary itself is built from /repo and driven "
              "through import/export on real badger directories (prior stores, repeated keys, mixed-age fields, malformed numbers "
              "and keys, bad metadata, sequences), exports and rule probes diffed with the model, each import judged by the Lean "
-             "predicate importProtects on the before/after exports.",
+             "predicate importProtects on the before/after exports."
+             " C10_kernel_is_source: the merge is the fold of the step translated from storeSlashingProtection; C10_import_command_keeps_invariants; the import command run while an instance holds the store must be refused.",
         note="encoding/json and viper are outside the model (both sides get the same structured file description). Trusted: Lean kernel + 3 axioms; correspondence check.",
         ref="DESIGN.md §6 C10"),
     "C11": dict(
@@ -100,7 +107,8 @@ CLAIMED = {
              "so every request gets the same verdict). Tie: clean histories with frequent exports judged 'exactly the highest "
              "released slot/source/target'; stores pre-populated with records produced by Go's own encoding/gob opened by the "
              "real rules service and probed around the watermarks (the Lean gob model decodes the same bytes); export by the "
-             "binary -> import into an empty store by the binary -> identical probes on both stores must agree.",
+             "binary -> import into an empty store by the binary -> identical probes on both stores must agree."
+             " Stores of 1100 keys (2200 records); refused-write histories.",
         note="The Lean gob model covers streams Go's encoder produces for the two legacy structs. Trusted: Lean kernel + 3 axioms; correspondence check.",
         ref="DESIGN.md §6 C11"),
     "C03": dict(
@@ -112,7 +120,8 @@ CLAIMED = {
              "instance's export must cover everything returned before the kill (Lean judge), equal the model's store before or after "
              "the interrupted request, and refuse conflicting probes; call-order traces (store exit before sign) are diffed with the "
              "model; SyncWrites is read back from the open store and the value log's O_DSYNC/fsync is checked under strace."
-             " Replies given before each kill are compared with the model (a request whose state write failed must carry no signature); fact obligation facts_result_switches_total (every switch over rules.Result names all enumerators or has a default).",
+             " Replies given before each kill are compared with the model (a request whose state write failed must carry no signature); fact obligation facts_result_switches_total (every switch over rules.Result names all enumerators or has a default)."
+             " Start-up stage shared with C04 (stores with old-format records, stalled first write, periodic pruning on).",
         note="Assumed: fsynced badger data survives power loss and badger's recovery replays it; SIGKILL cannot lose page-cache data so durability itself is probed only by option read-back and syscall trace. A crash leaving a strict subset of a batch written is not modelled (badger WriteBatch atomicity assumed).",
         ref="DESIGN.md §6 C03"),
     "C04": dict(
@@ -122,7 +131,8 @@ CLAIMED = {
              "threads, any interleaving), C04_real_time_order, C04_footprint_attest, C04_trace_is_protocol. Tie: recorded locker/store "
              "call sequences of every request equal the model's; steered concurrent schedules (a request parked between read and write) "
              "are judged by a Wing-Gong search in the Lean driver against the sequential model, plus slashability of everything released; soak runs."
-             " Start-up histories: stores pre-filled with old-format / current / no records, the first state write after the service starts stalled, a request conflicting with one answered earlier must be refused.",
+             " Start-up histories: stores pre-filled with old-format / current / no records, the first state write after the service starts stalled, a request conflicting with one answered earlier must be refused."
+             " Every concurrent scenario starts after the locker has served 1500 other keys; a Go panic during a scenario is reported with the scenario as the failing input; start-up histories with the store's maintenance goroutine running.",
         note="Assumed: Go's sync.Mutex semantics and memory model, badger atomic writes. Real interleavings are sampled and steered, only the model's are covered universally.",
         ref="DESIGN.md §6 C04"),
     "C15": dict(
@@ -131,7 +141,8 @@ CLAIMED = {
              "C15_measure (every step decreases a measure), C15_complete, C15_needs_global (the protocol without PreLock/PostLock "
              "deadlocks on [0,1] vs [1,0]). Tie: lock-call traces equal the model's (all Locks between PreLock and PostLock, Unlocks "
              "after the rules in reverse, none on a failed duplicate check); concurrent batches with opposite/nested/crossing key orders "
-             "and sustained load must complete within a watchdog under several GOMAXPROCS.",
+             "and sustained load must complete within a watchdog under several GOMAXPROCS."
+             " Also: stores in which several keys hold undecodable records.",
         note="Assumed: a blocked Mutex.Lock proceeds once the mutex is free.",
         ref="DESIGN.md §6 C15"),
     "C12": dict(
@@ -144,7 +155,8 @@ CLAIMED = {
              "commit replies; on success the relation vector the theorems name is checked with the BLS library (same composite "
              "key/vector/threshold/participants, share vs vector, every t-subset recovers, no (t-1)-subset does, immediate sign+list) "
              "and the secret recovered by the Lean driver's own Lagrange interpolation over Z_r maps to the composite key."
-             " After each further generation into the same wallet every earlier account is re-examined (held, consistent, usable).",
+             " After each further generation into the same wallet every earlier account is re-examined (held, consistent, usable)."
+             " Clusters with more peers than participants and vice versa; judges on the bounds and the participant count of every reported success.",
         note="Assumed: herumi BLS (field/group laws, hash-to-curve, Recover), CSPRNG. Real gRPC between daemons is unavailable in the sandbox (peer names do not resolve); messages pass the real receiver handlers after a protobuf round trip.",
         ref="DESIGN.md §6 C12", engine="lean+dkg"),
     "C13": dict(
@@ -152,7 +164,8 @@ CLAIMED = {
         text="Theorems C13_reject, C13_accounts_only_by_commit, C13_no_account, C13_no_crash, C13_legacy_counterexample. Tie: for small "
              "(n,t) every fault kind (lost, error reply, share replaced, commitment altered, vector short/long/long-with-neutral-entry, "
              "altered reply share/vector, duplicate) at every prepare/execute/contribute position through the routing sender: the "
-             "generation must end in an error, no instance may hold the account, no process may die, and a clean generation must work afterwards.",
+             "generation must end in an error, no instance may hold the account, no process may die, and a clean generation must work afterwards."
+             " Fault kinds also: empty / one-entry vectors, a second delivery with an altered vector.",
         note="Cryptographic validity of a share is abstract in the model (valid / invalid + vector length); the BLS library decides it in the run.",
         ref="DESIGN.md §6 C13", engine="lean+dkg"),
     "C14": dict(
@@ -173,7 +186,8 @@ CLAIMED = {
              "context-injected names (clients with full permissions, empty, unknown, case-changed, near-miss, unconfigured signer) x "
              "5 messages x instances x states none/prepared/executed/committed, generation then completed by a peer; share ownership for "
              "all ordered participant pairs checked with the BLS library (the reply's share verifies at the caller's id only)."
-             " Projection judge: the same scenario without the messages refused as 'unknown sender' must answer every other message identically (refused AND changes nothing, decided on the implementation alone).",
+             " Projection judge: the same scenario without the messages refused as 'unknown sender' must answer every other message identically (refused AND changes nothing, decided on the implementation alone)."
+             " C16_projection (history level). Op shareowners: replies examined after later calls were handled.",
         note="TLS authentication itself is C19; here the authenticated name is injected into the context the way the interceptor does.",
         ref="DESIGN.md §6 C16", engine="lean+dkg"),
     "C17": dict(
@@ -184,7 +198,8 @@ CLAIMED = {
              "hand-written and seeded event sequences over two account names on real instances with a 3 s generation timeout and real "
              "sleeps, staggered expiries and simultaneous prepares; reply classes and account presence diffed with the model; every successful commit "
              "judged on the model state and every reply judged by Spec.Life on the implementation's output alone."
-             " Variants in which the callers' request contexts carry deadlines far beyond / well inside the generation timeout.",
+             " Variants in which the callers' request contexts carry deadlines far beyond / well inside the generation timeout."
+             " Templates: failed execute then commit; a re-prepared name crossing the old generation's deadline.",
         note="Event sequences are restricted to those whose outcome does not depend on Go's map iteration order. The model clock advances only by explicit sleeps (chosen far from the timeout).",
         ref="DESIGN.md §6 C17", engine="lean+dkg"),
     "C18": dict(
@@ -195,7 +210,8 @@ CLAIMED = {
              "tables, path lists (wallet only, regex, trailing slash, unknown, case variants, malformed, duplicates), listings before "
              "and after accounts created through dirk; result multisets diffed with the model and judged sound/complete by the Lean "
              "specification (firstBearing + whole-name match); each entry's key cross-checked with the fetcher."
-             " Populations include DISTRIBUTED wallets with imported accounts (participant endpoints of every spelling) and 40% of the scenarios are listed through the real gRPC ListAccounts handler; earlier listings are repeated after creations.",
+             " Populations include DISTRIBUTED wallets with imported accounts (participant endpoints of every spelling) and 40% of the scenarios are listed through the real gRPC ListAccounts handler; earlier listings are repeated after creations."
+             " Key generation with a wallet-store read fault: what is in a participant's wallet is listed.",
         note="Over-listing inside accessible accounts of a requested wallet (the lister's un-grouped anchoring) is not flagged: C18 as stated allows it.",
         ref="DESIGN.md §6 C18"),
     "C19": dict(
@@ -207,7 +223,8 @@ CLAIMED = {
              "self-signed, other authority, expired, not yet valid, valid permitted/unpermitted clients, a peer) x every method of every "
              "service in the pb descriptors x two wallets; refused-vs-served compared with the model; identity observed through "
              "permission outcomes and the DKG unknown-sender reply."
-             " Since round 5: 26 credential kinds incl. TLS 1.3 resumption tickets forged under six keys computable from public data; fact obligation facts_tls_fields (only reviewed tls.Config fields, no method called on the config).",
+             " Since round 5: 26 credential kinds incl. TLS 1.3 resumption tickets forged under six keys computable from public data; fact obligation facts_tls_fields (only reviewed tls.Config fields, no method called on the config)."
+             " A concurrent stage (clients with different permissions sending identical requests at once) and permitted names of 63-200 bytes with subjects extending them.",
         note="Assumed: crypto/tls and x509 implement the documented ClientAuthType semantics; gRPC dispatches only on an established connection. factx is a syntactic extractor (go/ast).",
         ref="DESIGN.md §6 C19", engine="lean+factx+dh"),
     "C20": dict(
@@ -218,7 +235,8 @@ CLAIMED = {
              "empty / duplicated fields, odd byte lengths, extreme integers, batches, unknown fields, wrong wire types, truncation, "
              "garbage, DKG messages from non-peers) sent over gRPC to a daemon in a child process under ulimit -v 16 GiB, a second "
              "client probing liveness after every message."
-             " Fixed corpus enumerates participant/threshold corner pairs of Generate on the distributed wallet.",
+             " Fixed corpus enumerates participant/threshold corner pairs of Generate on the distributed wallet."
+             " The liveness probe also signs; regular-expression syntax payloads; callers that give up after 1-20 ms.",
         note="Assumed: allocator size classes (short byte fields get capacity >= 8), C-library robustness. The inventory is syntactic (panic, unchecked assertion, constant-bound slice, non-constant make); plain indexing is covered by the shape theorems.",
         ref="DESIGN.md §6 C20", engine="lean+factx+dh"),
 }
